@@ -5,16 +5,16 @@ from evalutil import *
 
 ID = "C03"
 LEVEL = "proof"
-MODULES = ["H3Proofs.Props.C03", "H3Proofs.Props.C03Enum", "H3Proofs.Props.C03Count"]
+MODULES = ["H3Proofs.Props.C03", "H3Proofs.Props.C03Enum", "H3Proofs.Props.C03Count", "H3Proofs.Props.C04Iter"]
 THEOREMS = "auto"
 ASSUMPTIONS = ["the centre round trip latLngToCell(cellToLatLng h) = h involves the gnomonic projection (acos, tan, "
                "atan2): it is NOT a theorem; the model answers `rt h` by the specification (ok h for valid h), so the "
                "correspondence stream is the property itself, exercised on enumerated / structured cells",
                "the integer half h3ToFaceIjk / faceIjkToH3 is modelled and compared on the same cells"]
-NOT_PROVED = ["centre round trip (float leg)",
-              "that the loop-faithful iterator model (iterInitRes/iterStepRes) equals the specification-level enumeration "
-              "cellsEnumS is correspondence-tested (both against C), not proved; valid_cell_count itself (the values the "
-              "generated isValidCell accepts at resolution r form a duplicate-free list of 2+120*7^r) is a theorem"]
+ASSUMPTIONS.append("the loop-faithful iterator model (iterInitRes / iterStepRes) is PROVED equal to the specification-level "
+                   "enumeration cellsEnumS (C04Iter.cellsEnum_eq); valid_cell_count (the values the generated isValidCell accepts at "
+                   "resolution r form a duplicate-free list of 2+120*7^r) is a theorem")
+NOT_PROVED = ["centre round trip (float leg)"]
 EXPLANATION = ("closed-form counts and the pentagon set are theorems over regenerated tables; the enumeration by the "
                "library's own iterator is compared with the model's; the round trip is run on all cells of the coarse "
                "resolutions, every pentagon neighbourhood, walks along all 30 icosahedron edges at every resolution")
